@@ -63,6 +63,12 @@ def main():
     prop, tier, seed, out, journal = sys.argv[1:6]
     seed = int(seed)
     rec = Recorder(journal, tier, seed)
+    # library code that draws from the *global* generators (MPS.from_desired_bond_dimension, perturb, RandomUnitaryEvolution ...)
+    # must not make a run depend on anything but (property, tier, seed)
+    import random as _random
+    import numpy as _np
+    _np.random.seed(1000 * seed + int(prop[1:]))
+    _random.seed(1000 * seed + int(prop[1:]))
     try:
         mod = importlib.import_module(f'bounded.b_{prop}')
         mod.run(rec)
